@@ -34,7 +34,26 @@ func c29Unbind(c *Ctx, rule string) {
 	pos := c.P.Pos(fi.Decl.Pos())
 	ctxParam := fi.Obj.Type().(*types.Signature).Params().At(0)
 	isB := func(e ast.Expr) bool { return core.FieldOf(info, e) == fB }
-	lenMinus1 := func(e ast.Expr) bool { // len(B)-1
+	var lenMinus1 func(e ast.Expr) bool
+	lenMinus1 = func(e ast.Expr) bool { // len(B)-1, possibly through a local defined once as len(B)-1
+		if v := core.VarOf(info, e); v != nil {
+			defs := 0
+			okDef := false
+			ast.Inspect(fi.Decl.Body, func(x ast.Node) bool {
+				if as, ok := x.(*ast.AssignStmt); ok {
+					for i, l := range as.Lhs {
+						if core.VarOf(info, l) == v {
+							defs++
+							if len(as.Rhs) == len(as.Lhs) && lenMinus1(as.Rhs[i]) {
+								okDef = true
+							}
+						}
+					}
+				}
+				return true
+			})
+			return defs == 1 && okDef
+		}
 		be, ok := ast.Unparen(e).(*ast.BinaryExpr)
 		if !ok || be.Op != token.SUB {
 			return false
